@@ -806,6 +806,12 @@ static void x_once(const plan_t *p)
             break;
         case O_SWAP: {
             int u = 1 - t; static struct mtab tmp;
+            if ((o->a[1] & 7) == 5) {
+                TRY(cstl_hash_swap(&tb[t], &tb[t]));
+                if (g_aborted) VIOL("abort", "swap aborted");
+                PROBE("self_swap"); EVT("swap_self", t, 0, 0);
+                break;
+            }
             if (ntab < 2) { EVT("skip", 0, 0, 0); break; }
             TRY(cstl_hash_swap(&tb[t], &tb[u]));
             if (g_aborted) VIOL("abort", "swap aborted");
@@ -1034,7 +1040,7 @@ static void x_gen(prng_t *r, int mode, plan_t *p)
             o = plan_add(p, O_SHRINK); o->a[0] = t;
             if (faults && prng_chance(r, 1, 3)) o->a[4] = 1;
         } else if (x < 91) {
-            o = plan_add(p, O_SWAP); o->a[0] = t;
+            o = plan_add(p, O_SWAP); o->a[0] = t; o->a[1] = prng_below(r, 8);
         } else if (x < 95) {
             o = plan_add(p, O_FOREACH_CONST); o->a[0] = t; o->a[1] = prng_below(r, 7); o->a[2] = prng_below(r, 4); o->a[3] = prng_next(r) >> 8;
         } else if (x < 99) {
